@@ -107,7 +107,7 @@ Definition import_module (s : istate) (name : string) (src : msource) : istate *
              end in
            match conv nodes [] with
            | inr c => (s, IExc c)
-           | inl cs => finish (exec_body s src cs)
+           | inl cs => finish (exec_body s src (if enabled s then cs else []))    (* the contracts are ordinary runtime contracts over exec_module: inert while disabled *)
            end
        end.
 
